@@ -71,7 +71,7 @@ def main(ctx):
     bindir = ctx.harness(GROUP, profile="release", bins=["c25"])
     cases = ctx.gen_exec(bindir, "c25", ctx.n(250, 1500), inputs=ctx.replay_inputs())
     oracle = "(fun c => prop_ok25 c && prop_ok c)"
-    dis = one_pass(ctx, "Graph::run-repeated", cases, "agree", oracle, "show", 40,
+    dis = one_pass(ctx, "Graph::run-repeated", cases, "agree", oracle, "show", 16 if ctx.quick() else 40,
                    "Exec.ModelTestOps.prop_ok25 (snapshots, run-twice equality, naive_eval)")
     ctx.extra["executor_model_disagreements"] = len(dis)
     if failed and not ctx.violations:
